@@ -293,3 +293,5 @@ V("C03", "twin_no_recursion_over_no_children", "silent", [(PT, "            \"ch
 V("C05", "section_break_only_bare_hash", "fire", [(TP, "        if \"#\" in comments and line.startswith(\"#\"):", "        if \"#\" in comments and line.rstrip() == \"#\":")], rule="C05.R2")
 V("C14", "arista_union_named_in_sorted_order", "fire", [("annet/rpl_generators/community.py", "            name = mangle_united_community_list_name([c.name for c in community_list_union])", "            name = mangle_united_community_list_name(sorted(c.name for c in community_list_union))")], rule="C14.R4")
 V("C01", "fold_case_of_whole_block_patch_side", "fire", [(CM, "        if diff_pre[row][\"match\"][\"attrs\"][\"ignore_case\"]:\n            new_row = row.lower()", "        if True:\n            new_row = row.lower()")], rule="C01.R11")
+V("C06", "acl_reverse_without_word_boundary", "fire", [(ACLP, "    if row.startswith(reverse_prefix + \" \"):\n        return row[len(reverse_prefix + \" \"):]", "    if row.startswith(reverse_prefix):\n        return row[len(reverse_prefix):].lstrip()")], rule="C06.R9")
+V("C07", "patching_reverse_without_word_boundary", "fire", [(RP, "    if row.startswith(reverse_prefix + \" \"):\n        row = row[len(reverse_prefix + \" \"):]", "    if row.startswith(reverse_prefix):\n        row = row[len(reverse_prefix):].lstrip()")], rule="C07.R2")
